@@ -14,7 +14,9 @@ def _values_for(value, rng, pool):
     if isinstance(value, enum.Enum):
         members = list(type(value))
         if len(members) > 24:
-            members = members[:8] + rng.sample(members[8:], 12) + members[-4:]
+            # a fixed spread (not a random sample: which member fails in which way must not depend on the seed)
+            rest = members[8:-4]
+            members = members[:8] + rest[::max(1, len(rest) // 12)][:12] + members[-4:]
         return [('member', m) for m in members if m is not value]
     if isinstance(value, int):
         return [(('2^%d' % (v.bit_length() - 1) if v and v & (v - 1) == 0 else '2^%d-1' % v.bit_length() if v and v & (v + 1) == 0 else str(v)) if i < 15 else ('plus1', 'flip7')[i - 15], v)
@@ -22,7 +24,7 @@ def _values_for(value, rng, pool):
                                        value + 1, value ^ 0x80)) if v != value]
     if isinstance(value, (bytes, bytearray)):
         t = type(value)
-        return [('empty', t(b'')), ('zero1', t(b'\x00')), ('random33', t(bytes(rng.randrange(256) for _ in range(33)))), ('ff2', t(b'\xff' * 2)),
+        return [('empty', t(b'')), ('zero1', t(b'\x00')), ('random33', t(bytes((7 * i + 1) % 256 for i in range(33)))), ('ff2', t(b'\xff' * 2)),
                 ('doubled', t(bytes(value) * 2)),
                 # the same octets as the other byte-string type (accepted only where the validator allows both)
                 ('other-bytes-type', (bytes if t is bytearray else bytearray)(value))]
@@ -117,7 +119,8 @@ def variants(obj, rng, pool, per_field=8, others=(), depth=0):
                 for l2, v2 in variants(cur, rng, pool, per_field=4, others=(), depth=1):
                     cands.append(('.' + l2, v2))
         if len(cands) > per_field and all(l == 'member' for l, _ in cands):
-            cands = cands[:3] + rng.sample(cands[3:], per_field - 3)
+            rest, more = cands[3:], max(per_field - 3, 0)
+            cands = cands[:3] + (rest[::max(1, len(rest) // more)][:more] if more else [])
         twins = 0
         for label, v in cands:
             try:
